@@ -251,8 +251,9 @@ theorem C06_declared_perfect :
   decide +kernel
 
 /-- a lawful `Tr` exists (the hypotheses of C06_perfect are satisfiable) -/
-example : Tr.Lawful ⟨fun q => q, fun q => q - 1, fun q => q⟩ :=
-  ⟨rfl, fun _ h => h, fun _ _ _ h => h, by simp, fun p q _ h => by simpa using h⟩
+example : Tr.Lawful ⟨fun q => q, fun q => q - 1, fun q => q + 1, fun q => q⟩ :=
+  ⟨rfl, fun _ h => h, fun _ _ _ h => h, by simp, fun p q _ h => by simpa using h, rfl,
+   fun _ h => h, by simp⟩
 
 end perfect
 end VerifModel.C06
